@@ -423,6 +423,9 @@ def run_case(ctx, case, model_out=None):
             ctx.tally("shortcut_ham_transpose", "symmetric:keep" if flags_of(mats[l])["sym"] else "generic:_T")
     ctx.sample(case, 3)
 
+    import copy as _copy
+    ham_before = (_copy.deepcopy(dict(ham.coeffs_mapping)), sorted(ham.conversion_dictionary),
+                  [repr(t) for t in ham.terms])
     try:
         lind = generate_lindbladian(ham, jarg, jdict, jcm, ket_suffix=ket, bra_suffix=bra)
     except Exception as e:          # noqa: BLE001
@@ -462,6 +465,22 @@ def run_case(ctx, case, model_out=None):
     except Exception as e:          # noqa: BLE001
         ctx.oracle_fail(case, f"generated Lindbladian cannot be evaluated: {type(e).__name__}: {str(e)[:160]}")
         return
+    # the caller's Hamiltonian is an input: it must not be modified, and a Lindbladian built earlier must not change
+    # when another one is built from the same Hamiltonian object with different rates
+    ham_after = (dict(ham.coeffs_mapping), sorted(ham.conversion_dictionary), [repr(t) for t in ham.terms])
+    if ham_after != ham_before:
+        probs.append("generate_lindbladian modified the Hamiltonian it was given "
+                     f"(coefficient mapping keys {sorted(ham_before[0])} -> {sorted(ham_after[0])})")
+    if jcm:
+        try:
+            jcm2 = {k: (2 * v + 0.375) for k, v in jcm.items()}
+            generate_lindbladian(ham, jarg, jdict, jcm2, ket_suffix=ket, bra_suffix=bra)
+            gen_again = dense_of_terms(lind.terms, lind.conversion_dictionary, lind.coeffs_mapping, order2, dims2)
+            if np.linalg.norm(gen_again - gen) > 1e-12 * max(1.0, np.linalg.norm(gen)):
+                probs.append("a Lindbladian built earlier changed its value after another one was built from the same "
+                             "Hamiltonian with different rates")
+        except Exception as e:      # noqa: BLE001
+            probs.append(f"second generate_lindbladian on the same Hamiltonian raised {type(e).__name__}: {str(e)[:120]}")
     hcm = {k: cval(v) for k, v in case["hcoeffs"].items()}
     Hd = dense_of_terms([(Fraction(t[0], t[1]), t[2], t[3]) for t in case["ham"]], mats, hcm, order, sites)
     D = Hd.shape[0]
@@ -508,6 +527,16 @@ def run_case(ctx, case, model_out=None):
         if np.linalg.norm(ex - gen) > tol:
             probs.append(f"symbolic and dense constructions disagree under rate = coefficient^2: "
                          f"||generate_lindbladian - exact_lindbladian|| = {np.linalg.norm(ex - gen):.3e}")
+        if len(dense_jumps) >= 2 and all(abs(complex(c).imag) == 0.0 for c, _ in dense_jumps):
+            # (only for real coefficients: a bare c*L carries |c|^2 while the tuple (c, L) carries c^2)
+            # mixed lists: a bare operator has rate 1 whatever precedes it; c*L given bare equals (c, L)
+            (c0, L0), rest = dense_jumps[0], dense_jumps[1:]
+            mixed1 = exact_lindbladian(Hd.copy(), [(c0, L0.copy())] + [c * L for c, L in rest])
+            mixed2 = exact_lindbladian(Hd.copy(), [c * L for c, L in rest] + [(c0, L0.copy())])
+            for nm, mx in (("tuple first", mixed1), ("bare first", mixed2)):
+                if np.linalg.norm(mx - ex) > tol:
+                    probs.append(f"exact_lindbladian with a mixed list of (coefficient, L) tuples and bare operators "
+                                 f"({nm}) differs from the all-tuple form by {np.linalg.norm(mx - ex):.3e}")
         if case["form"] == "bare" or case["form"] == "single-bare":
             ex1 = exact_lindbladian(Hd.copy(), [L.copy() for _, L in dense_jumps])       # bare form: rate 1
             if np.linalg.norm(ex1 - gen) > tol:
